@@ -168,12 +168,14 @@ TWO_MORE = [("replace", "delete"), ("wrap", "lift"), ("set_block_type", "delete_
 
 def obligations(tier, seed):
     T = 200 if tier == "quick" else 900
-    obs = opcheck.op_obligations(tier, QUICK, ops.KINDS, ["basic", "list", "strict", "title", "fixed", "iso", "table"], T)
+    obs = opcheck.op_obligations("quick" if tier == "quick" else "explicit", QUICK if tier == "quick" else
+                                 [("list", 1), ("list", 3), ("list", 4), ("strict", 0), ("iso", 1)], ops.KINDS, [], T,
+                                 xs_quick=3 if tier == "quick" else 99, step_quick=4 if tier == "quick" else 3)
     if tier == "quick":
         obs += opcheck.op_obligations(tier, [("list", 3)], QUICK_LIST_KINDS, [], T)
     pairs = TWO_QUICK if tier == "quick" else TWO_QUICK + TWO_MORE + [("insert", "split"), ("replace_range", "remove_mark_all"), ("lift", "wrap"),
                                                           ("add_mark", "replace"), ("set_node_markup", "delete")]
-    for (sn, i) in ([("list", 0)] if tier == "quick" else [("list", 0), ("list", 3), ("strict", 0)]):
+    for (sn, i) in ([("list", 0)] if tier == "quick" else [("list", 0), ("strict", 0)]):
         C = ops.payloads(common.load({"schema": sn, "doc": i}))
         for (k1, k2) in pairs:
             nx = ops.xrange_of(C, k1)
@@ -184,7 +186,7 @@ def obligations(tier, seed):
                             "P": {"schema": sn, "doc": i, "kind": k1, "kind2": k2, "a": aa, "xs": list(range(min(nx, 2)))}, "timeout": T})
     # (schema, doc, kinds): attr steps need a node with attrs, node-mark steps a parent that allows marks on blocks
     prim = [("list", 1, [0, 2]), ("list", 4, [1]), ("docmarks", 0, [3, 4]), ("mx1", 1, [3, 4])] if tier == "quick" else \
-        [("list", i, [0, 2]) for i in range(12)] + [("list", 4, [1]), ("list", 8, [1]), ("strict", 0, [0, 1]), ("table", 0, [0]),
+        [("list", i, [0, 2]) for i in (1, 2, 4, 7, 11)] + [("list", 4, [1]), ("list", 8, [1]), ("strict", 0, [0, 1]), ("table", 0, [0]),
                                                     ("docmarks", 0, [0, 3, 4]), ("docmarks", 1, [3, 4]), ("mx1", 1, [3, 4]), ("mx5", 2, [3, 4])]
     for (sn, i, pks) in prim:
         p = {"schema": sn, "doc": i, "prim": True}
